@@ -13,7 +13,7 @@ from .. import mgr
 from .. import refmodel as RM
 from .. import terms as T
 from ..mgr import ManagerSystem, WORLDS
-from ..world import InjectedFault
+from ..world import InjectedFault, FAULT_CLASSES
 from . import common
 from .c03 import check_indices
 
@@ -26,7 +26,9 @@ CFG_MIX = {"values": (3,), "index_values": (1,), "templates": ("mul2", "total", 
 CFG_REDUCED = {"values": (3,), "templates": ("mul2", "inc"), "unreg": True}
 # a user function inside the expressions: its call is a fault point of the EVALUATION kind (raises a ZeroDivisionError subclass)
 CFG_EVAL = {"values": (3,), "templates": ("mul2", "flaky"), "unreg": True}
-ALPHABETS = {"full": CFG_FULL, "mix": CFG_MIX, "reduced": CFG_REDUCED, "eval": CFG_EVAL}
+CFG_KNOB3 = {"values": (3, 5), "templates": ("mul2",), "knobs": ("K3",)}
+CFG_KNOB2 = {"values": (3,), "templates": ("mul2",), "knobs": ("K1", "K2")}
+ALPHABETS = {"knob2": CFG_KNOB2, "full": CFG_FULL, "mix": CFG_MIX, "reduced": CFG_REDUCED, "eval": CFG_EVAL, "knob3": CFG_KNOB3}
 
 
 def defs_of(m):
@@ -36,6 +38,7 @@ def defs_of(m):
 class System(ManagerSystem):
     prop = "C18"
     double = False
+    fault_classes = tuple(FAULT_CLASSES)
 
     def repeat_op(self, op, ns):
         """idempotent form of the assignment (an in-place operator is repeated
@@ -60,76 +63,127 @@ class System(ManagerSystem):
             issues.append(self.issue("violation", hist, op, f"{label}: verify() raised {type(e).__name__}", {"fail_at_write": k}))
         return issues
 
+    def one_fault(self, hist, op, k, cname, W, kinds, pre_defs, post_defs, st, issues):
+        """the update `op` from the state `hist` with write/evaluation point #k failing with an exception of class `cname`;
+        returns the world after the failure (None when the run is already a violation)"""
+        w = self.replay(hist)
+        w.trace.reset(fail_at=k, fail_cls=FAULT_CLASSES[cname])
+        exc = None
+        try:
+            w.apply(op)
+        except Exception as e:  # noqa
+            exc = e
+        st["fault_runs"] += 1
+        if k >= 1:
+            st["fault_on_dependant_write"] += 1
+        info = {"fail_at_write": k, "fault_class": cname, "fault_free_trace": [(T.path_str(p), repr(v)) for p, v in W],
+                "observed_trace": [(T.path_str(p), repr(v)) for p, v in w.trace.events]}
+        if not isinstance(exc, InjectedFault):
+            issues.append(self.issue("violation", hist, op,
+                                     f"the failure ({cname}) of write #{k} did not reach the caller "
+                                     f"({'no exception' if exc is None else type(exc).__name__})", info))
+            return None
+        nwrites = sum(1 for x in kinds[:k] if x == "w")
+        if w.trace.events != W[:nwrites] or w.trace.count != k + 1:
+            issues.append(self.issue("violation", hist, op,
+                                     f"writes before the failing write #{k} ({cname}) are not the fault-free prefix, or something ran after it", info))
+        d = defs_of(w.m)
+        if d != pre_defs and d != post_defs:
+            issues.append(self.issue("violation", hist, op, f"definitions after the failure at write #{k} are neither "
+                                     "those before the update nor those it establishes", dict(info, definitions=d)))
+        issues.extend(self.consistent(w, hist, op, k, f"after failure ({cname}) at write #{k}"))
+        return w
+
     def fault_runs(self, hist, op, ms, ns, ex, W, n, pre_defs, post_defs, comparable, kinds=None):
         issues = []
-        st = {"fault_runs": 0, "fault_on_dependant_write": 0, "double_fault_runs": 0, "repeats": 0}
+        st = {"fault_runs": 0, "fault_on_dependant_write": 0, "double_fault_runs": 0, "repeats": 0, "second_updates": 0}
         rep = self.repeat_op(op, ns)
+        kinds = kinds if kinds is not None else ["w"] * n
+
+        def show(tr):
+            return [(T.path_str(p), repr(v)) for p, v in tr]
+
+        # second updates tried after a failed one: the same assignment, and (for a plain value) another value to the same location
+        seconds = [rep]
+        if self.double and op[0] == "set":
+            seconds.append(("set", op[1], op[2] + 2))
         for k in range(n):
-            w = self.replay(hist)
-            w.trace.reset(fail_at=k)
-            exc = None
-            try:
-                w.apply(op)
-            except Exception as e:  # noqa
-                exc = e
-            st["fault_runs"] += 1
-            if k >= 1:
-                st["fault_on_dependant_write"] += 1
-            info = {"fail_at_write": k, "fault_free_trace": [(T.path_str(p), repr(v)) for p, v in W],
-                    "observed_trace": [(T.path_str(p), repr(v)) for p, v in w.trace.events]}
-            if not isinstance(exc, InjectedFault):
-                issues.append(self.issue("violation", hist, op,
-                                         f"the failure of write #{k} did not reach the caller "
-                                         f"({'no exception' if exc is None else type(exc).__name__})", info))
-                continue
-            nwrites = k if kinds is None else sum(1 for x in kinds[:k] if x == "w")
-            if w.trace.events != W[:nwrites]:
-                issues.append(self.issue("violation", hist, op,
-                                         f"writes before the failing write #{k} are not the fault-free prefix", info))
-            d = defs_of(w.m)
-            if d != pre_defs and d != post_defs:
-                issues.append(self.issue("violation", hist, op, f"definitions after the failure at write #{k} are neither "
-                                         "those before the update nor those it establishes", dict(info, definitions=d)))
-            issues.extend(self.consistent(w, hist, op, k, f"after failure at write #{k}"))
-            seconds = range(n) if self.double else ()
-            finals = [(None, w)]
-            for k2 in seconds:
-                w2 = self.replay(hist)
-                w2.trace.reset(fail_at=k)
-                try:
-                    w2.apply(op)
-                except Exception:  # noqa
-                    pass
-                w2.trace.reset(fail_at=k2)
-                exc2 = None
-                try:
-                    w2.apply(rep)
-                except Exception as e:  # noqa
-                    exc2 = e
-                st["double_fault_runs"] += 1
-                if exc2 is not None and not isinstance(exc2, InjectedFault):
-                    issues.append(self.issue("violation", hist, op, f"second faulty attempt raised {type(exc2).__name__}: {exc2}",
-                                             {"fail_at_write": [k, k2]}))
-                    continue
-                issues.extend(self.consistent(w2, hist, op, [k, k2], f"after failures at writes #{k},#{k2}"))
-                finals.append((k2, w2))
+            finals = []
+            for cname in (self.fault_classes if kinds[k] == "w" else ("plain",)):
+                w = self.one_fault(hist, op, k, cname, W, kinds, pre_defs, post_defs, st, issues)
+                if w is not None:
+                    finals.append(((k, cname, None), w, rep, ns))
+            if self.double:
+                for r2 in seconds:
+                    ns2 = ns if r2 == rep else RM.step(ns, r2)[0]
+                    # what the second update does when nothing ever failed: the reference for the second update after a failure
+                    wc = self.replay(hist)
+                    wc.apply(op)
+                    wc.trace.reset()
+                    wc.apply(r2)
+                    Wc, kc, nc = list(wc.trace.events), list(wc.trace.kinds), wc.trace.count
+                    post2 = defs_of(wc.m)
+                    st["second_updates"] += 1
+                    for k2 in list(range(nc)) + [None]:
+                        w2 = self.replay(hist)
+                        w2.trace.reset(fail_at=k)
+                        try:
+                            w2.apply(op)
+                        except Exception:  # noqa
+                            pass
+                        w2.trace.reset(fail_at=k2)
+                        exc2 = None
+                        try:
+                            w2.apply(r2)
+                        except Exception as e:  # noqa
+                            exc2 = e
+                        st["double_fault_runs"] += 1
+                        info = {"fail_at_write": [k, k2], "second_update": repr(r2), "never_failed_trace": show(Wc),
+                                "observed_trace": show(w2.trace.events)}
+                        if k2 is None:
+                            if exc2 is not None:
+                                issues.append(self.issue("violation", hist, op, f"the fault-free repeat raised {type(exc2).__name__}: {exc2}", info))
+                                continue
+                            if comparable and show(w2.trace.events) != show(Wc):
+                                issues.append(self.issue("violation", hist, op, "the update that follows a failed one does not run what the "
+                                                         "same update runs when nothing failed (something left over from the failed update ran, "
+                                                         "or a dependant was skipped)", info))
+                            finals.append(((k, "plain", "done"), w2, None, ns2))
+                            continue
+                        if not isinstance(exc2, InjectedFault):
+                            issues.append(self.issue("violation", hist, op, "the second failure did not reach the caller "
+                                                     f"({'no exception' if exc2 is None else type(exc2).__name__ + ': ' + str(exc2)})", info))
+                            continue
+                        nw2 = sum(1 for x in kc[:k2] if x == "w")
+                        if comparable and (show(w2.trace.events) != show(Wc[:nw2]) or w2.trace.count != k2 + 1):
+                            issues.append(self.issue("violation", hist, op, f"second faulty update: writes before its failing write #{k2} are not "
+                                                     "the prefix of what the update runs when nothing failed", info))
+                        d = defs_of(w2.m)
+                        if d not in (pre_defs, post_defs, post2):
+                            issues.append(self.issue("violation", hist, op, "definitions after two failures are neither those before nor "
+                                                     "those the updates establish", dict(info, definitions=d)))
+                        issues.extend(self.consistent(w2, hist, op, [k, k2], f"after failures at writes #{k},#{k2}"))
+                        finals.append(((k, "plain", k2), w2, r2, ns2))
             if not comparable:
                 continue
-            for k2, wf in finals:
-                wf.trace.reset()
-                try:
-                    wf.apply(rep)
-                    st["repeats"] += 1
-                except Exception as e:  # noqa
-                    issues.append(self.issue("violation", hist, op, f"the fault-free repeat raised {type(e).__name__}: {e}",
-                                             {"fail_at_write": [k, k2]}))
-                    continue
+            for (kk, cname, k2), wf, again, expect in finals:
+                if again is not None:
+                    wf.trace.reset()
+                    try:
+                        wf.apply(again)
+                        st["repeats"] += 1
+                    except Exception as e:  # noqa
+                        issues.append(self.issue("violation", hist, op, f"the fault-free repeat raised {type(e).__name__}: {e}",
+                                                 {"fail_at_write": [kk, k2], "fault_class": cname}))
+                        continue
                 obs = wf.contents()
-                if not T.same(obs, ns.vals["s"]):
+                if not T.same(obs, expect.vals["s"]):
                     issues.append(self.issue("violation", hist, op,
-                                             f"after failing at write #{k}{'' if k2 is None else ' and #%d' % k2} and repeating the assignment "
-                                             "the dependants are not re-established",
-                                             {"fail_at_write": [k, k2], "diff": mgr.diff_contents(obs, ns.vals['s'])[:6]}))
+                                             f"after failing at write #{kk} ({cname}){'' if k2 in (None, 'done') else ' and #%d' % k2} and repeating "
+                                             "the assignment the dependants are not re-established",
+                                             {"fail_at_write": [kk, k2], "repeated": repr(again), "diff": mgr.diff_contents(obs, expect.vals['s'])[:6]}))
+            if len(issues) > 12:
+                break
         return issues, st
 
     def expand(self, hist):
@@ -194,10 +248,11 @@ def plan(tier, seed):
     jobs = []
     if tier == "quick":
         runs = [("W-nest", "full", 2, False), ("W-nest-4", "reduced", 3, False), ("W-mix", "mix", 2, False),
-                ("W-flat", "full", 2, True), ("W-nest-4", "eval", 3, False), ("W-flat", "eval", 2, True)]
+                ("W-flat", "full", 2, True), ("W-nest-4", "eval", 3, False), ("W-flat", "eval", 2, True), ("W-knob3", "knob3", 3, True)]
     else:
         runs = [("W-nest", "full", 3, False), ("W-nest-4", "reduced", 4, False), ("W-mix", "mix", 3, False),
-                ("W-flat", "full", 3, True), ("W-nest", "full", 2, True), ("W-nest-4", "eval", 4, False), ("W-flat", "eval", 3, True)]
+                ("W-flat", "full", 3, True), ("W-nest", "full", 2, True), ("W-nest-4", "eval", 4, False), ("W-flat", "eval", 3, True),
+                ("W-knob3", "knob3", 4, True), ("W-knobs", "knob2", 3, True)]
     for hs in seeds:
         for wname, alpha, depth, double in runs:
             jobs.append({"name": f"faults:{wname}:{alpha}:d{depth}:{'double' if double else 'single'}:seed{hs}",
